@@ -25,7 +25,10 @@ def translate(repo, cpp, outdir, name):
     c = os.path.join(outdir, name + "_gen.c")
     sh(["clang++-14", "-std=gnu++20", "-O1", "-fno-vectorize", "-fno-slp-vectorize", "-fno-unroll-loops", "-DNDEBUG", "-DNO_UNIT_TESTS"] + incs +
        ["-S", "-emit-llvm", "-o", ll, os.path.join(repo, cpp)])
-    sh([sys.executable, os.path.join(HERE, "ir2c.py"), ll, c])
+    # reverse post-order block emission: only real loops keep backward jumps (LLVM's block order puts
+    # landing pads so that every function looks like a nest of loops to CBMC)
+    env = dict(os.environ); env["IR2C_RPO"] = "1"
+    sh([sys.executable, os.path.join(HERE, "ir2c.py"), ll, c], env=env)
     return c
 
 def validate_tiff(repo, gen_c, outdir):
